@@ -209,3 +209,16 @@ PROPS["C16"] = {
     "outside": "kills in the middle of one of the file writes of key-id registration / key-map write / flag update (restarts happen between operations; C11 covers intra-snapshot crash points); rotated op-log files",
     "assumptions": ["in-memory file system shim", "environment shims"],
 }
+
+PROPS["C03"] = {
+    "level": "model_checking",
+    "harnesses": [
+        {"name": "c03_seq", "params": {"quick": {"events": 4}, "thorough": {"events": 5}}, "covers": ["notify.delivered"], "budget_s": {"quick": 900, "thorough": 14400}},
+        {"name": "c03_race_disconnect", "fn": "c03_race", "params": {"quick": {"mode": 0}}},
+        {"name": "c03_race_writer", "fn": "c03_race", "params": {"quick": {"mode": 1}}},
+    ],
+    "bounds": {"quick": "sequential: all sequences of 4 events from {S watches k, S unwatches k, S unwatch-all, another client watches k / unwatches k / unwatch-all / disappears with or without its registrations cleaned, writer: set, set-safe with any base version in [-1,4], increment, remove, write of another key}; after every writer step S's inbox is compared with what the step owes it. Concurrent: S registers for k while another client (watching k and j) disconnects, and while a writer writes k, under all lock-level interleavings; afterwards a write must reach S",
+               "thorough": "5 sequential events"},
+    "outside": "three concurrently running actors (more than 200 000 schedules; not exhausted within the budget); two concurrent writers (the stale-final-view part of the property; the atomic set_value of C02 covers its cause); replicated writes",
+    "assumptions": ["environment shims", "partial-order reduction: session locks, the database table and the metrics averages are not yield points (checked for contention)"],
+}
